@@ -241,14 +241,18 @@ fn aggregate<C: BlsSignatureImpl + PartialEq>(c: &Value, keys: &[SecretKey<C>]) 
         "honest" => if let Err(e) = agg.verify(&data) { Some(format!("honest aggregate rejected: {}", e)) } else { None },
         "permuted" => { let mut d = data.clone(); d.reverse(); if let Err(e) = agg.verify(&d) { Some(format!("permuted list rejected: {}", e)) } else { None } }
         "dup_msg" => {
-            // all signers sign the same message
-            let m = b"same".to_vec();
-            let sg: Vec<Signature<C>> = sks.iter().map(|k| k.sign(s, &m).unwrap()).collect();
-            let a = AggregateSignature::<C>::from_signatures(&sg).ok()?;
-            let d: Vec<(PublicKey<C>, Vec<u8>)> = sks.iter().map(|k| (k.public_key(), m.clone())).collect();
-            let r = a.verify(&d);
-            match s { SignatureSchemes::Basic => if r.is_ok() { Some("Basic accepted a repeated message".into()) } else { None },
-                      _ => if r.is_err() { Some(format!("{} rejected repeated messages", scheme_name(s))) } else { None } }
+            // one repeated message at every pair of positions (i, j), plus all-equal
+            let mut variants: Vec<Vec<Vec<u8>>> = vec![vec![b"same".to_vec(); n]];
+            for i in 0..n { for j in (i + 1)..n { let mut v = ms.clone(); v[j] = v[i].clone(); variants.push(v); } }
+            for mv in variants {
+                let sg: Vec<Signature<C>> = sks.iter().zip(mv.iter()).map(|(k, m)| k.sign(s, m).unwrap()).collect();
+                let a = AggregateSignature::<C>::from_signatures(&sg).ok()?;
+                let d: Vec<(PublicKey<C>, Vec<u8>)> = sks.iter().zip(mv.iter()).map(|(k, m)| (k.public_key(), m.clone())).collect();
+                let r = a.verify(&d);
+                match s { SignatureSchemes::Basic => if r.is_ok() { return Some("Basic accepted a list with a repeated message".into()); },
+                          _ => if r.is_err() { return Some(format!("{} rejected repeated messages", scheme_name(s))); } }
+            }
+            None
         }
         "drop_last" => if agg.verify(&data[..n - 1]).is_ok() { Some("list with a pair dropped accepted".into()) } else { None },
         "alter_first_msg" => { let mut d = data.clone(); d[0].1.push(1); if agg.verify(&d).is_ok() { Some("altered first message accepted".into()) } else { None } }
